@@ -136,33 +136,39 @@ def solve(state0, n, t, accel=None, orientation="QSW"):
 
 
 def trajectory(state0, n, mans, t, orientation="QSW", at_date="post"):
-    """State at t (seconds from the epoch of state0) through chronologically ordered,
-    non-overlapping maneuvers placed after the epoch.
+    """State at t (seconds from the epoch of state0) through maneuvers placed at or after the
+    epoch (any order in the list, burns and impulses may overlap: the physics is an event list).
 
     mans: list of ("imp", t_m, dv[3])  or  ("burn", t_start, t_stop, accel[3]); vectors in the
     axes of `orientation`.  An impulse with t_m < t is applied; with t_m == t it is applied iff
-    at_date == "post".  A burn thrusts on [t_start, t_stop).  For t before the epoch no maneuver
-    applies.
+    at_date == "post".  A burn thrusts on [t_start, t_stop); simultaneous burns add up.  For t
+    before the epoch no maneuver applies.
     """
     x = np.asarray(state0, float).copy()
-    now = 0.0
+    if t < 0:
+        return solve(x, n, t, None, orientation)
+    cuts = {0.0, float(t)}
     for m in mans:
-        if m[0] == "imp":
-            _, tm, dv = m
-            if tm < t or (tm == t and at_date == "post"):
-                x = solve(x, n, tm - now, None, orientation)
-                now = tm
-                x[3:] = x[3:] + np.asarray(dv, float)
-        else:
-            _, ts, te, acc = m
-            if ts <= t:
-                x = solve(x, n, ts - now, None, orientation)
-                now = ts
-                if t < te:
-                    return solve(x, n, t - now, acc, orientation)
-                x = solve(x, n, te - now, acc, orientation)
-                now = te
-    return solve(x, n, t - now, None, orientation)
+        for tm in m[1:-1]:
+            if 0.0 <= tm <= t:
+                cuts.add(float(tm))
+    cuts = sorted(cuts)
+
+    def jump(x, at):
+        for m in mans:
+            if m[0] == "imp" and m[1] == at and (at < t or at_date == "post"):
+                x[3:] = x[3:] + np.asarray(m[2], float)
+        return x
+
+    x = jump(x, cuts[0])
+    for lo, hi in zip(cuts, cuts[1:]):
+        acc = np.zeros(3)
+        for m in mans:
+            if m[0] == "burn" and m[1] <= lo and hi <= m[2]:
+                acc = acc + np.asarray(m[3], float)
+        x = solve(x, n, hi - lo, acc if np.any(acc) else None, orientation)
+        x = jump(x, hi)
+    return x
 
 
 # ---------------------------------------------------------------------------------------------
